@@ -596,6 +596,29 @@ func checkHandleConnMarkerCI(w *World, r *Report, ci *connInfo, rule string) {
 			}
 		}
 		r.Check(sawNeg, rule, "the remainder of a frame is read only when the probe is not the marker", w.InstrPos(ci.rest), strings.Join(guardStrings(e.guardsOf(ci.rest.Block())), " ; "))
+		// every frame that was read in full is delivered: between the probe and Process nothing but the two read errors
+		// and the marker test decides
+		var extraP []string
+		for _, g := range e.guardsOf(ci.process.Block()) {
+			if g.If == ci.markerIf || !(ci.probe.Block() == g.If.Block() || ci.probe.Block().Dominates(g.If.Block())) {
+				continue
+			}
+			if gs := g.String(); (strings.HasPrefix(gs, "eq(") || strings.HasPrefix(gs, "ne(")) && strings.Contains(gs, "#1(io.ReadFull(") && strings.Contains(gs, "nil") {
+				continue
+			}
+			extraP = append(extraP, g.String())
+		}
+		r.Check(len(extraP) == 0, rule, "every frame read in full is handed to Process (only a read error or a marker skips it)", w.InstrPos(ci.process), "other conditions: "+strings.Join(extraP, " ; "))
+		if from := successEdge(ci.rest.Block()); from != nil {
+			by, at := canBypass(from, ci.process.Block(), ci.probe.Block())
+			pos := w.InstrPos(ci.process)
+			if by && len(at.Instrs) > 0 {
+				pos = w.InstrPos(at.Instrs[0])
+			}
+			r.Check(!by, rule, "no path from a completed frame read comes round to the next read without passing Process", pos, "")
+		} else {
+			r.Unknown(rule, "no path from a completed frame read comes round to the next read without passing Process", w.InstrPos(ci.rest), "the remainder read is not followed by an error check")
+		}
 	}
 	// from the reset block control returns to the probe read without passing the second read / Process
 	okBack := true
@@ -733,4 +756,55 @@ func ctorCallIn(fn *ssa.Function, c *ssa.Call, ctor *ssa.Function) *ssa.Call {
 		inner = ic
 	}
 	return inner
+}
+
+// canBypass: is there a path from block `from` that reaches one of `stops` (or leaves the function) without passing
+// through block `must`? Used for "every X is followed by Y before the loop comes round again".
+func canBypass(from, must *ssa.BasicBlock, stops ...*ssa.BasicBlock) (bool, *ssa.BasicBlock) {
+	isStop := map[*ssa.BasicBlock]bool{}
+	for _, b := range stops {
+		isStop[b] = true
+	}
+	seen := map[*ssa.BasicBlock]bool{}
+	work := []*ssa.BasicBlock{from}
+	for len(work) > 0 {
+		b := work[len(work)-1]
+		work = work[:len(work)-1]
+		if seen[b] || b == must {
+			continue
+		}
+		seen[b] = true
+		if isStop[b] {
+			return true, b
+		}
+		if _, isRet := b.Instrs[len(b.Instrs)-1].(*ssa.Return); isRet {
+			return true, b
+		}
+		work = append(work, b.Succs...)
+	}
+	return false, nil
+}
+
+// successEdge: for a block ending in "if err != nil { return ... }" (or the == form) the successor on which the error
+// is nil; nil when the block does not end that way.
+func successEdge(b *ssa.BasicBlock) *ssa.BasicBlock {
+	iff, ok := b.Instrs[len(b.Instrs)-1].(*ssa.If)
+	if !ok {
+		return nil
+	}
+	bo, ok := iff.Cond.(*ssa.BinOp)
+	if !ok {
+		return nil
+	}
+	isNil := func(v ssa.Value) bool { c, ok := v.(*ssa.Const); return ok && c.Value == nil }
+	if !isNil(bo.X) && !isNil(bo.Y) {
+		return nil
+	}
+	switch bo.Op.String() {
+	case "!=":
+		return b.Succs[1]
+	case "==":
+		return b.Succs[0]
+	}
+	return nil
 }
